@@ -66,6 +66,12 @@ def gen_cases(ctx):
         c = gen_history_case(rng, classes=gen.FLOAT32_EXACT_POSITIVE if filt else gen.FLOAT32_EXACT,
                              max_jobs=rng.choice([2, 3, 4, 5]), max_machines=rng.choice([2, 3, 4]),
                              filters=filt)
+        if i % 11 == 5 and not gen.has_zero(c["instance"]) and gen.num_ops(c["instance"]) <= 40 \
+                and all(isinstance(x, int) and x < 10**4 for j in c["instance"]["durations"] for x in j):
+            # six-digit durations with small differences (sums stay below 2**24, exact in float32)
+            for job in c["instance"]["durations"]:
+                for p in range(len(job)):
+                    job[p] += 100000
         mode = rng.choice(["all_composite", "all_composite", "single", "single", "subset"])
         c["kind"] = "history"
         c["mode"] = mode
